@@ -240,6 +240,45 @@ def Reader.open (K : KeySetOps B) (full : Bytes) : Option (Reader B) :=
             if dec.sizeOf ≠ (K.card keys : Int) then none
             else some { keys := keys, offsets := dec, entries := full.take posOfOffset }
 
+/-- the error returns of `newMMapStoreReader` / `initialize`, one per `return … err` of the source, in
+source order (an empty file maps to `nil, nil`, so it takes the `tooShort` branch as well) -/
+inductive OpenErr where
+  | tooShort        -- len(data) < sstFileFooterSize
+  | badMagic        -- "verify magic-number of sstfile"
+  | badFooter       -- !sort.IntsAreSorted([0, posOfOffset, posOfKeys, footerStart])
+  | badOffsets      -- unmarshalFixedOffset error
+  | badKeys         -- encoding.BitmapUnmarshal error
+  | countMismatch   -- r.offsets.Size() != int(r.keys.GetCardinality())
+deriving Repr, DecidableEq
+
+/-- `posOfOffset`, `posOfKeys` as `initialize` reads them from the footer -/
+def footerPos (full : Bytes) : Nat × Nat :=
+  let footerStart := full.length - sstFileFooterSize
+  (leVal ((full.drop footerStart).take 4), leVal ((full.drop (footerStart + 4)).take 4))
+
+/-- `newMMapStoreReader` + `initialize` with the error branch named (`Reader.open` = this with the
+error forgotten: `open_eq_openE`). Every slice expression of the source is in bounds once the
+sorted check has passed (`open_sound`), so `take`/`drop` never totalise anything here. -/
+def Reader.openE (K : KeySetOps B) (full : Bytes) : Except OpenErr (Reader B) :=
+  if full.length < sstFileFooterSize then .error .tooShort
+  else
+    let footerStart := full.length - sstFileFooterSize
+    if leVal ((full.drop (footerStart + magicNumberAtFooter)).take 8) ≠ magicNumberOffsetFile then
+      .error .badMagic
+    else
+      let posOfOffset := (footerPos full).1
+      let posOfKeys := (footerPos full).2
+      if ¬ (posOfOffset ≤ posOfKeys ∧ posOfKeys ≤ footerStart) then .error .badFooter
+      else
+        match FixedOffset.Dec.fresh.unmarshal ((full.take posOfKeys).drop posOfOffset) with
+        | (.error _, _) => .error .badOffsets
+        | (.ok _, dec) =>
+          match K.unmarshal (full.drop posOfKeys) with
+          | none => .error .badKeys
+          | some keys =>
+            if dec.sizeOf ≠ (K.card keys : Int) then .error .countMismatch
+            else .ok { keys := keys, offsets := dec, entries := full.take posOfOffset }
+
 inductive GetRes where
   | ok (value : Bytes)
   | absent          -- ErrKeyNotExist
